@@ -202,9 +202,80 @@ def extract(repo: str):
     return out
 
 
+# ---- FeArray.broadcast: the decision list of the coefficient broadcasting
+BC_CONDS = {
+    "tensor_ndim > 0": "declared",
+    "lead == (Ne, nPg)": "leadFull", "lead == (Ne,)": "leadElem", "lead == ()": "leadNone",
+    "arr.shape[:2] == (Ne, nPg)": "head2Full", "arr.ndim == 1": "rank1",
+    "arr.shape[0] == Ne": "firstNe", "arr.shape[0] == nPg": "firstNPg",
+    "isinstance(value, (int, float, np.floating, np.integer))": "pyScalar",
+}
+BC_KINDS = {
+    "float(value)": "scalar",
+    "FeArray.asfearray(arr)": "full",
+    "FeArray.asfearray(np.broadcast_to(arr[:, None], (Ne, nPg) + tail))": "perElem",
+    "FeArray.asfearray(np.broadcast_to(arr[:, None], (Ne, nPg)))": "perElem",
+    "FeArray.asfearray(np.broadcast_to(arr[None, None], (Ne, nPg) + tail))": "const",
+    "FeArray.asfearray(np.broadcast_to(arr[None, None], (Ne, nPg) + arr.shape))": "const",
+    "FeArray.asfearray(np.broadcast_to(arr[None, :], (Ne, nPg)))": "perPoint",
+}
+BC_ASSIGNS = {"arr = np.asarray(value)", "tail = arr.shape[-tensor_ndim:] if tensor_ndim else ()", "lead = arr.shape[:-tensor_ndim] if tensor_ndim else arr.shape"}
+
+
+def broadcast_rules(repo):
+    """`FeArray.broadcast` as an ordered decision list [(path conditions, kind)]: the first rule whose conditions all hold
+    gives the way the coefficient is read. Every test / return / assignment must come from the known vocabulary."""
+    tree = ast.parse(open(os.path.join(repo, "EasyFEA", "FEM", "_linalg.py"), encoding="utf-8").read())
+    cls = next((n for n in tree.body if isinstance(n, ast.ClassDef) and n.name == "FeArray"), None)
+    fn = next((f for f in (cls.body if cls else []) if isinstance(f, ast.FunctionDef) and f.name == "broadcast"), None)
+    if fn is None:
+        raise Refuse("FeArray.broadcast not found")
+    if [a.arg for a in fn.args.args] != ["value", "Ne", "nPg", "tensor_ndim"]:
+        raise Refuse("FeArray.broadcast: signature changed")
+    rules = []
+
+    def walk(stmts, path):
+        """returns True when the block always leaves the function"""
+        for st in stmts:
+            if isinstance(st, ast.Expr) and isinstance(st.value, ast.Constant) and isinstance(st.value.value, str):
+                continue
+            if isinstance(st, ast.Assign):
+                if ast.unparse(st) not in BC_ASSIGNS:
+                    raise Refuse("FeArray.broadcast: unexpected assignment " + ast.unparse(st))
+                continue
+            if isinstance(st, ast.Return):
+                k = BC_KINDS.get(ast.unparse(st.value))
+                if k is None:
+                    raise Refuse("FeArray.broadcast: unexpected return " + ast.unparse(st.value))
+                rules.append((list(path), k))
+                return True
+            if isinstance(st, ast.Raise):
+                rules.append((list(path), "error"))
+                return True
+            if isinstance(st, ast.If) and not st.orelse:
+                c = BC_CONDS.get(ast.unparse(st.test))
+                if c is None:
+                    raise Refuse("FeArray.broadcast: unexpected test " + ast.unparse(st.test))
+                walk(st.body, path + [c])
+                continue
+            raise Refuse("FeArray.broadcast: unexpected statement " + ast.unparse(st)[:80])
+        return False
+
+    if not walk(fn.body, []):
+        raise Refuse("FeArray.broadcast: the function can fall off its end")
+    return rules
+
+
 def write(repo: str, outdir: str) -> dict:
     ex = extract(repo)
     os.makedirs(outdir, exist_ok=True)
+    rules = broadcast_rules(repo)
+    btxt = ("-- GENERATED by tools/py2lean/gen_c12.py from FeArray.broadcast in /repo/EasyFEA/FEM/_linalg.py — do not edit\n"
+            "import EasyFEAVerif.Model.Broadcast\nnamespace EasyFEAVerif.Gen.C12\nopen EasyFEAVerif.Broadcast\n\n"
+            "/-- `FeArray.broadcast(value, Ne, nPg, tensor_ndim)` as an ordered decision list: the first rule whose conditions all hold decides how the coefficient is read -/\n"
+            "def broadcastRules : List (List Cond × Kind) := [\n  "
+            + ",\n  ".join("([" + ", ".join("." + c for c in conds) + "], ." + k + ")" for conds, k in rules) + "]\n\nend EasyFEAVerif.Gen.C12\n")
+    _write_if_changed(os.path.join(outdir, "Broadcast.lean"), btxt)
 
     def mat(rows):
         return "[" + ",\n    ".join("[" + ", ".join(emit.pexpr(x) for x in r) + "]" for r in rows) + "]"
@@ -246,7 +317,7 @@ end EasyFEAVerif.Gen.C12
 """
     _write_if_changed(os.path.join(outdir, "Linalg.lean"), txt)
     return dict(det=[1, 2, 3], adj=[2, 3], dot=len(ex["subs"]["_dot_subscript"]), ddot=len(ex["subs"]["_ddot_subscript"]),
-                tensorprod=ex["tensorprod"], keeps=ex["keeps"])
+                tensorprod=ex["tensorprod"], keeps=ex["keeps"], broadcast_rules=len(rules))
 
 
 if __name__ == "__main__":
